@@ -75,12 +75,63 @@ def c01c_tie(ctx, state):
         "oracle_checked": len(reqs), "oracle_failures": len(fails)}}
 
 
+def c01d_tie(ctx, state):
+    """C01d: tie D for parol's whole LL(k) path (`parolLL`, Props/C01d.lean: EBNF grammar as written ->
+    canonicalisation -> checks -> left factoring -> numbering -> tables) + the end-to-end property oracle."""
+    cases_p, impl_p, model_p = ctx.path("c01d_cases.txt"), ctx.path("c01d_impl.txt"), ctx.path("c01d_model.txt")
+    okg, errg = common.gen_cases("c01d", ctx.seed, ctx.tier, cases_p)
+    cases = common.read_lines(cases_p) if okg else []
+    oki, erri = common.run_impl("c01d", cases_p, impl_p)
+    impl = common.read_lines(impl_p)
+    common.run_model(cases_p, model_p)
+    model = common.read_lines(model_p)
+    if not okg or not oki or len(impl) != len(cases) or not cases:
+        common.violation(ctx, "C01_c01d_impl_run.json", {
+            "broken": "correspondence D:c01d (implementation driver crashed or produced too few replies)",
+            "stderr": (errg if not okg else erri), "replies": len(impl), "cases": len(cases)}, no_input=True)
+        return
+    diffs = common.diff_streams(cases, impl, model)
+    # oracle: the statement of parol_ll_end_to_end on the REAL tables, all words up to length n
+    n = 4   # (n = 5 on 9000 cases takes 40 min; 4 keeps the thorough tier at about 5 min)
+    reqs = ["parol-ll-check %d " % n + " ".join(c.split()[1:4]) + " " + a for c, a in zip(cases, impl)]
+    with open(ctx.path("c01d_oracle_req.txt"), "w") as f:
+        f.write("\n".join(reqs) + "\n")
+    common.run_model(ctx.path("c01d_oracle_req.txt"), ctx.path("c01d_oracle_rep.txt"))
+    reps = common.read_lines(ctx.path("c01d_oracle_rep.txt"))
+    fails = [(c, a, r) for c, a, r in zip(cases, impl, reps + ["<missing>"] * (len(cases) - len(reps))) if r != "ok"]
+    if fails:
+        fails.sort(key=lambda t: len(t[0]))
+        common.violation(ctx, "C01_c01d_oracle.json", {
+            "kind": "property fails on the implementation (oracle): the parser tables parol really generates for an EBNF grammar "
+                    "do not accept exactly the sentences of the grammar as written",
+            "case": fails[0][0], "impl_reply": fails[0][1], "oracle": fails[0][2], "count": len(fails)})
+    elif diffs:
+        diffs.sort(key=lambda t: len(t[1]))
+        i, c, a, b = diffs[0]
+        common.violation(ctx, "C01_c01d_tie.json", {
+            "kind": "model pipeline parolLL and the real LL(k) pipeline disagree; the property oracle found no failing input",
+            "broken": "correspondence D:c01d (theorems of ParolModel.Props.C01d no longer transfer to the code)",
+            "case": c, "impl_reply": a, "model_reply": b, "disagreements": len(diffs)}, no_input=True)
+    tables = [a for a in impl if not a.startswith("err") and len(a.split()) == 3]
+    state.setdefault("coverage_extra", {})["c01d_front_to_back_tie"] = {
+        "cases": len(cases), "disagreements": len(diffs), "real_table_sets": len(tables),
+        "rejected_by_checks": sum(1 for a in impl if a.startswith(("err np", "err ur", "err lr"))),
+        "rejected_by_lookahead": sum(1 for a in impl if a.startswith(("err maxk", "err conflict"))),
+        "with_lookahead_ge_2": sum(1 for a in tables if any(d.split("/")[1] not in ("0", "1") for d in a.split()[2].split(";"))),
+        "oracle_checked": len(reqs), "oracle_failures": len(fails)}
+
+
+def c01_extra(ctx, state):
+    c01c_tie(ctx, state)
+    c01d_tie(ctx, state)
+
+
 SPEC = {
-    "extra": c01c_tie,
+    "extra": c01_extra,
     "prop": "llrun",
     "gen_extra": ["plain"],
     "mod": "ParolModel.Props.C01",
-    "more_mods": ["ParolModel.Props.C01b", "ParolModel.Props.C01c"],
+    "more_mods": ["ParolModel.Props.C01b", "ParolModel.Props.C01c", "ParolModel.Props.C01d"],
     "files": FILES,
     "oracle_req": oracle_req,
     "nontrivial": nontrivial,
@@ -94,15 +145,16 @@ SPEC = {
         "error recovery is not modelled: with recovery on only the verdict ok / not-ok is compared; that recovery cannot turn an error into success rests on the drain-site analysis in DESIGN.md §6 C01 plus this tie",
         "completeness is a theorem about the model under TablesExact (the automata predict the right production on every reference lookahead string); for the model generator genTables that hypothesis is a theorem (pipeline_tables_exact), and genTables is tied to the real generator byte for byte; independently it is DECIDED for every real table set explored by the verified checker tablesExactB (tablesExactB_sound), and the equality with the ORIGINAL grammar's language (through parol's transformations) is covered per explored grammar by the verified membership oracle",
         "the token sequence is the one the real TokenStream delivers for the rendered text (scanner behaviour is C13)",
+        "front to back (Props/C01d): parolLL composes the models of canonicalisation, grammar checks, left factoring, parol's numbering and genTables; the composition is tied to the real pipeline (obtain_grammar_config_from_string, check_and_transform_grammar, calculate_lookahead_dfas, generate_parser_export_model) byte for byte on random EBNF grammars; in the EBNF model a terminal is one number (rendered as the string literal \"t<n>\"), i.e. terminals of different kinds with the same text (finding F11) are outside this tie",
     ],
 }
 
 CLAIM = {
     "category": "proof",
-    "text": "End-to-end theorem for generator + runtime at model level (Props/C01c): pipeline_end_to_end — for every BNF grammar G passing the decidable class check (parol's own grammar checks pass, terminals numbered from 5, non-terminals dense) and every K, if the model generator genTables (decision C05 -> FIRST_k/FOLLOW_k C06 -> trie/unite/compile/minimise C07 -> table layout) yields tables T then the parser model accepts toks iff Lang G (sigTypes toks); pipeline_tables_exact, pipeline_no_false_conflict. genTables is tied to the real generator by byte-identical comparison of the table sets on random grammars fed untransformed to calculate_lookahead_dfas + export model, and reproduces every real table set of the full PAR pipeline from its transformed grammar (gen-tables-match). Both halves as theorems for all tables and inputs. Completeness: ll_complete / ll_complete_explicit (a sentence of the production table with a derivation of m production applications is accepted within |w|+2m steps with exactly m actions — no left-recursion or token hypothesis) and ll_accepts_iff_checked (tables passing the verified checkers tablesSoundB and tablesExactB accept EXACTLY the language of the production table); tablesExactB is evaluated by Lean on every real table set. Soundness half as a theorem for all tables and inputs: ll_sound — if the model of LLKParser::parse_into answers ok then the significant token types are in the language of the production table, for ARBITRARY lookahead automata, any trim/recovery/depth option (only hypothesis: TablesSound, decided per real table set by the verified checker tablesSoundB); foreign_token_rejected — a token type that occurs in no production can never be accepted. The model is tied to the code by exact differential runs on tables produced by parol's real pipeline (built in-process, scanner built with scnr2_generate) and the real token streams. The end-to-end equality with the ORIGINAL grammar's language are decided per explored grammar by the verified membership recogniser (member_iff) on all short token strings plus random sentences and mutants, with recovery on and off.",
+    "text": "FRONT-TO-BACK theorem (Props/C01d): parol_ll_end_to_end — for the executable composition parolLL of the models of the whole LL path (front-end checks, EBNF canonicalisation C09, grammar checks C11, left factoring C10, numbering of non-terminals and terminals C18, table generation C01c) and every EBNF grammar E, start symbol, K: if parolLL yields tables T then for every token sequence and every option record without depth limit the parser model accepts iff the significant token types are the image, under the (injective) terminal numbering, of a sentence of E AS WRITTEN (groups, optionals, repetitions) — no further hypothesis (the class hypotheses of C01c are theorems: left_factor_keeps_class, number_conventions). parolLL is tied to the real pipeline byte for byte on random EBNF grammars, plus an oracle comparing the real tables' language with the verified membership recogniser. End-to-end theorem for generator + runtime at model level (Props/C01c): pipeline_end_to_end — for every BNF grammar G passing the decidable class check (parol's own grammar checks pass, terminals numbered from 5, non-terminals dense) and every K, if the model generator genTables (decision C05 -> FIRST_k/FOLLOW_k C06 -> trie/unite/compile/minimise C07 -> table layout) yields tables T then the parser model accepts toks iff Lang G (sigTypes toks); pipeline_tables_exact, pipeline_no_false_conflict. genTables is tied to the real generator by byte-identical comparison of the table sets on random grammars fed untransformed to calculate_lookahead_dfas + export model, and reproduces every real table set of the full PAR pipeline from its transformed grammar (gen-tables-match). Both halves as theorems for all tables and inputs. Completeness: ll_complete / ll_complete_explicit (a sentence of the production table with a derivation of m production applications is accepted within |w|+2m steps with exactly m actions — no left-recursion or token hypothesis) and ll_accepts_iff_checked (tables passing the verified checkers tablesSoundB and tablesExactB accept EXACTLY the language of the production table); tablesExactB is evaluated by Lean on every real table set. Soundness half as a theorem for all tables and inputs: ll_sound — if the model of LLKParser::parse_into answers ok then the significant token types are in the language of the production table, for ARBITRARY lookahead automata, any trim/recovery/depth option (only hypothesis: TablesSound, decided per real table set by the verified checker tablesSoundB); foreign_token_rejected — a token type that occurs in no production can never be accepted. The model is tied to the code by exact differential runs on tables produced by parol's real pipeline (built in-process, scanner built with scnr2_generate) and the real token streams. The end-to-end equality with the ORIGINAL grammar's language are decided per explored grammar by the verified membership recogniser (member_iff) on all short token strings plus random sentences and mutants, with recovery on and off.",
     "design_ref": "DESIGN.md §6 C01",
     "note": "Trusted: Lean kernel; faithfulness of the hand-written model as observed by the differential run; harness (grammar rendering, table/token encoders, dynamic scanner construction) and orchestrator. Not proved: totality of the generator model (fuel / minimisation panic outcomes never occurred), language preservation of the PAR front end's transformations is C09/C10/C12's business, recovery internals. Grammars are sampled.",
-    "technique": "Lean 4 proof (soundness and completeness for all inputs, hypotheses checked per real table) over hand-written model + differential correspondence check + verified membership oracle",
+    "technique": "Lean 4 proof (front-to-back: EBNF grammar as written -> tables -> runtime accepts exactly its language, for all grammars and inputs; component hypotheses also checked per real table) over hand-written model + differential correspondence check + verified membership oracle",
 }
 
 
